@@ -345,26 +345,38 @@ Section Count.
   Variable A : Type.
   Variable dec : forall x y : A, {x = y} + {x <> y}.
 
+  Definition cnt (l : list A) (x : A) : nat := count_occ dec l x.
   Definition one (a x : A) : nat := if dec a x then 1 else 0.
 
-  Lemma cnt_cons : forall a l x, count_occ dec (a :: l) x = one a x + count_occ dec l x.
-  Proof. intros; unfold one; simpl; destruct (dec a x); auto. Qed.
+  Lemma cnt_nil : forall x, cnt [] x = 0.
+  Proof. reflexivity. Qed.
+
+  Lemma cnt_cons : forall a l x, cnt (a :: l) x = one a x + cnt l x.
+  Proof. intros; unfold cnt, one; simpl; destruct (dec a x); auto. Qed.
+
+  Lemma cnt_app : forall l1 l2 x, cnt (l1 ++ l2) x = cnt l1 x + cnt l2 x.
+  Proof. intros; apply count_occ_app. Qed.
 
   Lemma cnt_flat : forall B (g : B -> list A) l x,
-    count_occ dec (flat_map g l) x = sumf (fun w => count_occ dec (g w) x) l.
+    cnt (flat_map g l) x = sumf (fun w => cnt (g w) x) l.
   Proof.
     intros B g l x; induction l; simpl; auto.
-    rewrite count_occ_app, sumf_cons, IHl; auto.
+    rewrite cnt_app, sumf_cons, IHl; auto.
   Qed.
 
   Lemma cnt_flat_upd : forall B (g : B -> list A) l i w w' x,
     nth_error l i = Some w ->
-    count_occ dec (flat_map g (upd i w' l)) x + count_occ dec (g w) x
-    = count_occ dec (flat_map g l) x + count_occ dec (g w') x.
+    cnt (flat_map g (upd i w' l)) x + cnt (g w) x = cnt (flat_map g l) x + cnt (g w') x.
   Proof.
     intros. rewrite !cnt_flat.
-    apply (sumf_upd _ (fun w => count_occ dec (g w) x)); auto.
+    apply (sumf_upd _ (fun w => cnt (g w) x)); auto.
   Qed.
+
+  Lemma cnt_perm : forall l1 l2, (forall x, cnt l1 x = cnt l2 x) -> Permutation l1 l2.
+  Proof. intros l1 l2 H. apply (Permutation_count_occ dec). exact H. Qed.
+
+  Lemma cnt_in : forall l x, 0 < cnt l x <-> In x l.
+  Proof. intros; unfold cnt; split; apply count_occ_In. Qed.
 End Count.
 
 Lemma file_dec : forall a b : file, {a = b} + {a <> b}.
@@ -375,13 +387,13 @@ Qed.
 Lemma handle_dec : forall a b : handle, {a = b} + {a <> b}.
 Proof. decide equality; [decide equality | apply file_dec]. Qed.
 
-Arguments one : simpl never.
+Global Opaque cnt one.
 
-Notation cf := (count_occ file_dec).
-Notation ch := (count_occ handle_dec).
+Notation cf := (cnt file file_dec).
+Notation ch := (cnt handle handle_dec).
 
-Ltac cnt :=
-  repeat (rewrite ?flat_map_app, ?count_occ_app, ?cnt_cons in *; simpl in * ).
+Ltac cn :=
+  repeat (rewrite ?flat_map_app, ?cnt_app, ?cnt_cons, ?cnt_nil in *; simpl in * ).
 
 (* ------------------------------------------------------------------ transfers *)
 
@@ -427,13 +439,13 @@ Lemma tstep_held_inl : forall t t' hs, tstep t = (inl t', hs) ->
   forall x, ch (t_held t) x = ch hs x + ch (t_held t') x.
 Proof.
   intros [f [|[|] rest]|f b|f b] t' hs E x; simpl in *; inversion E; subst;
-    rewrite ?t_held_after; cnt; lia.
+    rewrite ?t_held_after; cn; lia.
 Qed.
 
 Lemma tstep_held_inr : forall t r hs, tstep t = (inr r, hs) ->
   forall x, ch (t_held t) x = ch hs x.
 Proof.
-  intros [f [|[|] rest]|f b|f b] r hs E x; simpl in *; inversion E; subst; cnt; lia.
+  intros [f [|[|] rest]|f b|f b] r hs E x; simpl in *; inversion E; subst; cn; lia.
 Qed.
 
 (* ------------------------------------------------------------------ invariant B: files *)
@@ -467,6 +479,6 @@ Proof. intros A B g x n H; induction n; simpl; auto. rewrite H; auto. Qed.
 Lemma invB_init : forall N files, invB files (init N files).
 Proof.
   intros N files; constructor; simpl; intros; auto; try congruence.
-  - rewrite flat_repeat_nil; auto; simpl; lia.
+  - rewrite flat_repeat_nil; auto; cn; lia.
   - induction N; simpl; constructor; simpl; auto.
 Qed.
